@@ -144,7 +144,7 @@ def make_state(S):
 
 def native_allocator(T, total):
     a = shm.ShmAllocator.__new__(shm.ShmAllocator)
-    a._buf = memoryview(bytearray(HEADER))
+    a._buf = memoryview(bytearray(HEADER + 4096))  # header + the first bytes of the data area (as in a real segment)
     a._total_size = total
     a._write_allocs([tuple(x) for x in T])
     return a
@@ -177,11 +177,16 @@ def replay_allocate(inputs, ob):
     if not py_wf(T, total):
         return ReplayResult(False, "model table not well-formed natively (truncated model?)")
     a = native_allocator(T, total)
+    data_before = bytes(a._buf[HEADER:])
     try:
         r = a.allocate(size)
     except ValueError as e:
         ok = size <= 0
         return ReplayResult(not ok, f"allocate({size}) raised ValueError({e}) with size>0" if not ok else "raise is allowed")
+    except Exception as e:
+        return ReplayResult(True, f"allocate({size}) on a table of {len(T)} entries raised {type(e).__name__}: {e}")
+    if bytes(a._buf[HEADER:]) != data_before:
+        return ReplayResult(True, f"allocate({size}) on a table of {len(T)} entries wrote into the data area (header overflow)")
     T1 = a._read_allocs()
     if size <= 0:
         return ReplayResult(True, f"allocate({size}) returned {r!r} instead of raising ValueError")
@@ -227,6 +232,7 @@ def replay_free(inputs, ob):
 def _candidate_tables(rnd):
     full = [(HEADER + 2 * i, 1) for i in range(MAXA)]
     yield full, HEADER + 2 * MAXA + 64
+    yield [(HEADER + 4 * i, 2) for i in range(MAXA)], HEADER + 4 * MAXA + 64  # full table, interior gaps of 2
     yield full[:-1], HEADER + 2 * MAXA + 64
     yield [], HEADER + 100
     for _ in range(300):
@@ -477,7 +483,49 @@ def sink_write(S):
     S.canary("O5a.canary.never_advances", me.fields["_pos"] == pos)
 
 
-@unit("C28.O5b allocate_and_write bounds the sink by its allocation", targets=["vgi_rpc/shm.py::ShmSegment.allocate_and_write"], min_obligations=4)
+def search_allocate_and_write(ob, seed):
+    """Native scenarios on a real segment: interleaved writes and out-of-order frees; after every step each
+    live batch must lie inside a table entry that starts at its offset, and live batches must not share bytes."""
+    import random
+
+    import pyarrow as pa
+
+    rnd = random.Random(seed)
+    for trial in range(40):
+        seg = shm.ShmSegment.create(HEADER + 4 * 1024 * 1024)
+        try:
+            live = {}
+            script = []
+            for step in range(rnd.randint(3, 8)):
+                if live and rnd.random() < 0.35:
+                    off = rnd.choice(sorted(live))
+                    seg.free(off)
+                    del live[off]
+                    script.append(("free", off))
+                else:
+                    n = rnd.choice([1, 3, 50, 400, 2000])
+                    cols = rnd.choice([1, 2, 8])
+                    batch = pa.RecordBatch.from_pydict({f"c{i}": list(range(n)) for i in range(cols)})
+                    r = seg.allocate_and_write(batch)
+                    script.append(("write", n, cols, r))
+                    if r is None:
+                        continue
+                    live[r[0]] = r[1]
+                table = dict(seg.allocator._read_allocs())
+                spans = sorted(live.items())
+                for off, ln in spans:
+                    if off not in table or table[off] < ln:
+                        return {"script": script}, ReplayResult(True, f"batch at {off} (+{ln} bytes) is not inside an allocation that starts there: table={sorted(table.items())[:6]} after {script}")
+                for (o1, l1), (o2, l2) in zip(spans, spans[1:]):
+                    if o1 + l1 > o2:
+                        return {"script": script}, ReplayResult(True, f"live batches share bytes: ({o1},+{l1}) and ({o2},+{l2}) after {script}")
+        finally:
+            seg.close()
+            seg.unlink()
+    return None
+
+
+@unit("C28.O5b allocate_and_write bounds the sink by its allocation", targets=["vgi_rpc/shm.py::ShmSegment.allocate_and_write"], search=search_allocate_and_write, min_obligations=4)
 def allocate_and_write(S):
     import pyarrow.ipc as ipc
 
